@@ -751,6 +751,21 @@ def chunkReader : Reader ChunkSt where
     cases hp : s.phase <;> simp_all
   all_hom := by intro s a m h; rfl
 
+/-! ## the encode side: httping.packChunk -/
+
+def hexChar (d : Nat) : Nat := if d < 10 then 48 + d else 87 + d
+
+/-- `"{0:x}".format(n)` -/
+def toHex (n : Nat) : Bytes := if n < 16 then [hexChar n] else toHex (n / 16) ++ [hexChar (n % 16)]
+termination_by n
+decreasing_by omega
+
+/-- packChunk(msg): one chunk `hex(len) CRLF msg CRLF`, whatever the length (the empty msg gives the last chunk) -/
+def packChunk (msg : Bytes) : Bytes := toHex msg.length ++ [13, 10] ++ msg ++ [13, 10]
+
+/-- what Responder.write produces for the pieces of a body and the terminating write(b'') -/
+def packAll (pieces : List Bytes) : Bytes := (pieces.map packChunk).flatten ++ packChunk []
+
 /-! ## messages -/
 
 structure ReqMsg where
